@@ -312,9 +312,31 @@ func valEq(a, b reflect.Value) bool {
 		if a.Len() != b.Len() {
 			return false
 		}
-		for _, k := range a.MapKeys() {
-			bv := b.MapIndex(k)
-			if !bv.IsValid() || !valEq(a.MapIndex(k), bv) {
+		// (keys are matched with valEq so that NaN keys, which cannot be looked
+		// up, are handled too)
+		bkeys := b.MapKeys()
+		used := make([]bool, len(bkeys))
+		ia, ib := a.MapRange(), 0
+		for ia.Next() {
+			found := false
+			for ib = range bkeys {
+				if used[ib] || !valEq(ia.Key(), bkeys[ib]) {
+					continue
+				}
+				ibv := b.MapRange()
+				// locate the value of bkeys[ib] by iteration (MapIndex fails for NaN)
+				for ibv.Next() {
+					if valEq(ibv.Key(), bkeys[ib]) && valEq(ia.Value(), ibv.Value()) {
+						found = true
+						break
+					}
+				}
+				if found {
+					used[ib] = true
+					break
+				}
+			}
+			if !found {
 				return false
 			}
 		}
